@@ -37,7 +37,7 @@ MANIFEST = dict(
 CASE_MS = 5000
 PAREN_KEY = "F77"             # exponential parse time in '(' nesting (known finding, id assigned by main)
 PAREN_SIG_DEPTH = 14
-INDEX_KEY = None             # panic on a positional index >= 2^64 (`x.18446744073709551616`); id to be assigned
+INDEX_KEY = "F78"             # panic on a positional index >= 2^64 (fixed e9f4937: status fixed suppresses nothing)
 
 
 def enc(text):
